@@ -862,7 +862,16 @@ def gen_gauss(r):
         elif c < 0.62 and int_in:
             n = r.choice(int_in)
             d = ta.inputs[n]
-            if r.random() < 0.5:
+            if r.random() < 0.2:
+                # concatenation / stacking along a batch input (of Gaussians, joints, weights)
+                same = [v for v in vals if v != a and dict(g.types[v].inputs) == dict(ta.inputs) and g.types[v].output == ta.output]
+                other = r.choice(same) if same else a
+                if r.random() < 0.7:
+                    out = g.emit({"op": "cat", "name": n, "parts": [a, other]})
+                else:
+                    fresh[0] += 1
+                    out = g.emit({"op": "stack", "name": "s%d" % fresh[0], "parts": [a, other]})
+            elif r.random() < 0.5:
                 out = g.emit({"op": "subs", "a": a, "subs": [[n, ["int", r.randrange(d.size)]]]})
             else:
                 idx = g._index_value(d.size)
